@@ -28,7 +28,10 @@ type mparam struct {
 	t                        typ
 	s                        string
 	i                        int
-	changedSoft, changedHard int // soft = any update call, hard = update to a different value
+	v                        []vec3 // tV
+	rc                       Rec    // tR
+	applied                  bool   // an accepted message has been applied (composite sources)
+	changedSoft, changedHard int    // soft = any update call, hard = update to a different value
 }
 
 type model struct {
@@ -118,6 +121,16 @@ func (m *model) eval(i int) val {
 	case kChkS:
 		v, _ := fChkS(i, nv(0).s)
 		return val{s: v}
+	case kVFmt:
+		if r := n.named[0]; r != nil {
+			return val{s: fVFmt(i, true, m.params[r.idx].v)}
+		}
+		return val{s: fVFmt(i, false, nil)}
+	case kRFmt:
+		if r := n.named[0]; r != nil {
+			return val{s: fRFmt(i, true, m.params[r.idx].rc)}
+		}
+		return val{s: fRFmt(i, false, Rec{})}
 	case kUntil:
 		for k := range n.arr {
 			if v := m.evalRef(&n.arr[k], tI).i; v&1 == 1 {
@@ -313,10 +326,15 @@ func (m *model) mayExecute(soft []int) []bool {
 func (m *model) describe() string {
 	var sb strings.Builder
 	for i, p := range m.params {
-		if p.t == tS {
+		switch p.t {
+		case tS:
 			fmt.Fprintf(&sb, "p%d=%q ", i, p.s)
-		} else {
+		case tI:
 			fmt.Fprintf(&sb, "p%d=%d ", i, p.i)
+		case tV:
+			fmt.Fprintf(&sb, "p%d=%s ", i, fVFmt(0, true, p.v))
+		default:
+			fmt.Fprintf(&sb, "p%d=%s ", i, fRFmt(0, true, p.rc))
 		}
 	}
 	sb.WriteString("\n")
